@@ -1552,3 +1552,217 @@ Theorem sup_first_sound_dops cfgs msgs rounds fuel order ops :
   check_C03_sup_first (map c_link cfgs)
     (trace_of (run_dops rounds fuel order (init cfgs msgs) ops)) = true.
 Proof. rewrite run_dops_labels. apply sup_first_sound. Qed.
+
+(* ------------------------------------------------------------------ *)
+(* check_C04_join: a failed callback is followed, in the same step, by the normal completion of
+   the task (TJoin).  A pure trace argument: every helper extends the trace by a segment in
+   which each failing callback exit of an actor comes with that actor's TJoin. *)
+
+Definition p_fail (c : nat) (e : tev) : bool :=
+  match e with
+  | TExit j PreStart _ => false
+  | TExit j _ (RErr _) | TExit j _ (RPanic _) => Nat.eqb j c
+  | _ => false end.
+
+Lemma failed_app c t1 t2 : failed_cb c (t1 ++ t2) = failed_cb c t1 || failed_cb c t2.
+Proof. unfold failed_cb, has_ev. apply existsb_app. Qed.
+Lemma ended_app2 c t1 t2 : ended c (t1 ++ t2) = ended c t1 || ended c t2.
+Proof. unfold ended, has_ev. apply existsb_app. Qed.
+
+Definition jgood (d : list tev) : Prop := forall c, failed_cb c d = true -> ended c d = true.
+Definition ext (w w' : world) : Prop := exists d, trace_of w' = trace_of w ++ d /\ jgood d.
+
+Lemma ext_refl w : ext w w.
+Proof. exists []. split; [symmetry; apply app_nil_r|intros c; discriminate]. Qed.
+Lemma ext_trans w1 w2 w3 : ext w1 w2 -> ext w2 w3 -> ext w1 w3.
+Proof.
+  intros (d1 & E1 & G1) (d2 & E2 & G2). exists (d1 ++ d2). split; [rewrite E2, E1, app_assoc; reflexivity|].
+  intros c. rewrite failed_app, ended_app2. intros A. apply orb_true_iff in A as [A|A];
+    [rewrite (G1 c A)|rewrite (G2 c A), orb_true_r]; reflexivity.
+Qed.
+Lemma ext_same w w' : w_trace w' = w_trace w -> ext w w'.
+Proof. intros E. exists []. unfold trace_of. rewrite E, app_nil_r. split; [reflexivity|intros c; discriminate]. Qed.
+Lemma ext_emit w e : (forall c, p_fail c e = false) -> ext w (emit w e).
+Proof.
+  intros H. exists [e]. split; [reflexivity|]. intros c A. unfold failed_cb, has_ev in A. simpl in A.
+  rewrite orb_false_r in A. change (p_fail c e = true) in A. rewrite H in A. discriminate.
+Qed.
+Lemma ext_upd w i f : ext w (upd w i f).
+Proof. apply ext_same. reflexivity. Qed.
+
+Ltac ext_ev := apply ext_emit; intros; reflexivity.
+
+Lemma ext_cleanup w i ev : ext w (cleanup w i ev).
+Proof. apply ext_same, trace_cleanup. Qed.
+Lemma ext_finish w i e : ext w (finish w i e).
+Proof. unfold finish. eapply ext_trans; [apply ext_cleanup|ext_ev]. Qed.
+Lemma ext_start_failed w i : ext w (start_failed w i).
+Proof. unfold start_failed. eapply ext_trans; [apply ext_cleanup|ext_ev]. Qed.
+Lemma ext_terminate w i : ext w (terminate w i).
+Proof. apply ext_same. unfold terminate. apply trace_terminate_fuel. Qed.
+Lemma ext_killed_exit w i c : ext w (killed_exit w i c).
+Proof.
+  unfold killed_exit. eapply ext_trans; [apply ext_terminate|].
+  destruct c as [[| | | |]|]; auto using ext_start_failed, ext_finish;
+    (eapply ext_trans; [apply ext_upd|apply ext_finish]).
+Qed.
+Lemma ext_enter w i c : ext w (enter w i c).
+Proof.
+  unfold enter. destruct (get w i) as [a|]; [|apply ext_refl]. destruct (script_of w a c) as [es f].
+  eapply ext_trans; [|apply ext_upd]. ext_ev.
+Qed.
+Lemma ext_start_cb w i c : ext w (start_cb w i c).
+Proof.
+  unfold start_cb. destruct (get w i) as [a|]; [|apply ext_refl]. destruct (a_sig a).
+  - eapply ext_trans; [apply ext_upd|apply ext_killed_exit].
+  - apply ext_enter.
+Qed.
+Lemma ext_graceful_exit w i r : ext w (graceful_exit w i r).
+Proof. unfold graceful_exit. eapply ext_trans; [apply ext_upd|apply ext_start_cb]. Qed.
+Lemma ext_do_eff w e : ext w (do_eff w e).
+Proof.
+  destruct e; simpl; try apply ext_refl.
+  - unfold req_send. destruct (is_created w a); [|apply ext_refl]. unfold do_send.
+    destruct (get w a); [|apply ext_refl]. destruct (can_send _); [eapply ext_trans; [apply ext_upd|]|]; ext_ev.
+  - unfold req_stop. destruct (is_created w a); [|apply ext_refl].
+    apply ext_trans with (emit w (TStopReq a r)); [ext_ev|]. apply ext_same. unfold do_stop.
+    destruct (get _ a); auto. destruct (_ || _); auto.
+  - unfold req_kill. destruct (is_created w a); [|apply ext_refl].
+    apply ext_trans with (emit w (TKillReq a)); [ext_ev|]. apply ext_same, trace_do_kill.
+  - unfold req_drain. destruct (is_created w a); [|apply ext_refl].
+    apply ext_trans with (emit w (TDrainReq a)); [ext_ev|]. apply ext_same. unfold do_drain.
+    destruct (get _ a); auto. destruct (negb _); auto.
+Qed.
+
+(* the unit: the callback's exit is logged, then what follows it *)
+Lemma ext_after_cb w i c f : get w i <> None -> ext w (after_cb (emit w (TExit i c f)) i c f).
+Proof.
+  intros Hsome. set (wx := emit w (TExit i c f)).
+  assert (Hok : (forall c0, p_fail c0 (TExit i c f) = false) -> forall w', ext wx w' -> ext w w').
+  { intros Hn w' E. eapply ext_trans; [apply ext_emit; exact Hn|exact E]. }
+  (* a failing exit: the trace grows by [TExit; TJoin] *)
+  assert (Hfail : forall w' e, w_trace w' = w_trace wx -> ext w (finish w' i e)).
+  { intros w' e Et. exists [TExit i c f; TJoin i]. split.
+    - unfold finish, trace_of. simpl. rewrite trace_cleanup, Et. simpl. rewrite <- app_assoc. reflexivity.
+    - intros c0 A. unfold ended, has_ev. simpl. unfold failed_cb, has_ev in A. simpl in A.
+      rewrite orb_false_r in A. assert (Nat.eqb i c0 = true).
+      { destruct c; try discriminate; destruct f; try discriminate; exact A. }
+      rewrite H. reflexivity. }
+  unfold after_cb. fold wx. change (get wx i) with (get w i). destruct (get w i) as [a|]; [|congruence].
+  destruct c as [| |m|ev|]; destruct f as [|t|t];
+    try (apply Hfail; reflexivity);
+    try (apply Hok; [intros; reflexivity|]).
+  - destruct (if c_local (a_cfg a) then None else c_link (a_cfg a)) as [s|].
+    + pose proof (trace_try_link wx i s) as Et. destruct (try_link wx i s) as [w1 ok]. simpl in Et.
+      eapply ext_trans; [apply ext_same; exact Et|]. destruct ok; [|apply ext_start_failed].
+      eapply ext_trans; [apply ext_upd|ext_ev].
+    + eapply ext_trans; [apply ext_upd|ext_ev].
+  - apply ext_start_failed.
+  - apply ext_start_failed.
+  - eapply ext_trans; [apply ext_upd|]. apply ext_same, trace_notify.
+  - apply ext_upd.
+  - apply ext_upd.
+Qed.
+
+Lemma ext_seg w i : ext w (fst (seg w i)).
+Proof.
+  unfold seg. destruct (get w i) as [a|] eqn:Eg; [|apply ext_refl].
+  destruct (a_pc a) as [| | |c rest f parked| |]; cbn [fst]; try apply ext_refl.
+  - destruct (negb _); cbn [fst]; [apply ext_start_failed|].
+    set (w0 := upd w i (fun a0 => upd_status a0 1)).
+    assert (E0 : ext w w0) by apply ext_upd.
+    destruct (if c_local (a_cfg a) then c_link (a_cfg a) else None) as [s|].
+    + pose proof (trace_try_link w0 i s) as Et. destruct (try_link w0 i s) as [w1 ok]. simpl in Et.
+      assert (E1 : ext w w1) by (eapply ext_trans; [exact E0|apply ext_same; exact Et]).
+      destruct ok; cbn [fst]; (eapply ext_trans; [exact E1|]); [apply ext_start_cb|apply ext_start_failed].
+    + cbn [fst]. eapply ext_trans; [exact E0|apply ext_start_cb].
+  - apply ext_start_cb.
+  - destruct rest as [|e r]; cbn [fst].
+    + apply ext_after_cb. congruence.
+    + destruct e; cbn [fst];
+        try (eapply ext_trans; [apply ext_upd|apply (ext_do_eff _ (ESend _ _))
+                                                || apply (ext_do_eff _ (EStop _ _))
+                                                || apply (ext_do_eff _ (EKill _))
+                                                || apply (ext_do_eff _ (EDrain _))]).
+      * destruct (is_open w g); cbn [fst].
+        -- destruct parked; [eapply ext_trans; [|apply ext_upd]; ext_ev|apply ext_upd].
+        -- destruct parked; cbn [fst]; [apply ext_refl|eapply ext_trans; [|apply ext_upd]; ext_ev].
+      * eapply ext_trans; [|apply ext_upd]. ext_ev.
+  - destruct (a_sig a); cbn [fst].
+    + eapply ext_trans; [apply ext_upd|apply ext_killed_exit].
+    + destruct (a_stop a); cbn [fst].
+      * eapply ext_trans; [apply ext_upd|apply ext_graceful_exit].
+      * destruct (a_supq a); cbn [fst].
+        -- destruct (a_msgq a) as [|[m|] t]; cbn [fst]; [apply ext_refl| |].
+           ++ eapply ext_trans; [apply ext_upd|apply ext_start_cb].
+           ++ eapply ext_trans; [apply ext_upd|apply ext_graceful_exit].
+        -- eapply ext_trans; [apply ext_upd|apply ext_start_cb].
+Qed.
+
+Lemma ext_segs fuel w i : ext w (segs fuel w i).
+Proof.
+  revert w. induction fuel as [|n IH]; intros w; cbn [segs]; [apply ext_refl|].
+  pose proof (ext_seg w i) as E. destruct (seg w i) as [w' go]. cbn [fst] in E.
+  destruct go; [eapply ext_trans; [exact E|apply IH]|exact E].
+Qed.
+
+Lemma ext_poll fuel w i : ext w (poll fuel w i).
+Proof.
+  unfold poll. assert (E : ext w (fst (resume w i))).
+  { unfold resume. destruct (get w i) as [a|]; [|apply ext_refl].
+    destruct (a_pc a); cbn [fst]; try apply ext_refl. destruct (a_sig a); cbn [fst]; [|apply ext_refl].
+    eapply ext_trans; [|apply ext_killed_exit].
+    apply ext_trans with (consume_sig w i); [apply ext_upd|]. apply ext_emit. intros c0. destruct c; reflexivity. }
+  destruct (resume w i) as [w' go]. cbn [fst] in E.
+  destruct go; [eapply ext_trans; [exact E|apply ext_segs]|exact E].
+Qed.
+
+Lemma ext_abort w i : ext w (abort w i).
+Proof.
+  unfold abort. destruct (get w i) as [a|]; [|apply ext_refl].
+  destruct (a_pc a) as [| | |c r f [|]| |]; try apply ext_refl;
+    (eapply ext_trans; [|apply ext_cleanup]);
+    first [ext_ev
+          |apply ext_trans with (emit w (TAborted i)); [ext_ev|]; apply ext_emit; intros c0; destruct c; reflexivity].
+Qed.
+
+Lemma ext_step w l : ext w (step w l).
+Proof.
+  destruct l as [i|i m|i r|i|i|g|i|i fuel]; simpl.
+  - destruct (get w i) as [a|]; [|apply ext_refl]. destruct (a_pc a); try apply ext_refl. apply ext_upd.
+  - apply (ext_do_eff w (ESend i m)).
+  - apply (ext_do_eff w (EStop i r)).
+  - apply (ext_do_eff w (EKill i)).
+  - apply (ext_do_eff w (EDrain i)).
+  - apply ext_same. reflexivity.
+  - apply ext_abort.
+  - apply ext_poll.
+Qed.
+
+Lemma ext_run ls w : ext w (run w ls).
+Proof.
+  unfold run. revert w. induction ls as [|l t IH]; simpl; intros w; [apply ext_refl|].
+  eapply ext_trans; [apply ext_step|apply IH].
+Qed.
+
+(* in every reachable world (no settling needed): an actor one of whose callbacks after pre_start
+   failed has a join handle that completed normally *)
+Theorem failed_then_joined cfgs msgs ls c :
+  failed_cb c (trace_of (run (init cfgs msgs) ls)) = true ->
+  ended c (trace_of (run (init cfgs msgs) ls)) = true.
+Proof.
+  destruct (ext_run ls (init cfgs msgs)) as (d & E & G). rewrite E. simpl. apply G.
+Qed.
+
+Theorem join_sound cfgs msgs ls n :
+  check_C04_join n (trace_of (run (init cfgs msgs) ls)) = true.
+Proof.
+  unfold check_C04_join. apply forallb_forall. intros c _.
+  destruct (failed_cb c _) eqn:F.
+  - rewrite (failed_then_joined cfgs msgs ls c F). apply orb_true_r.
+  - rewrite andb_false_r. reflexivity.
+Qed.
+
+Theorem join_sound_dops cfgs msgs rounds fuel order ops n :
+  check_C04_join n (trace_of (run_dops rounds fuel order (init cfgs msgs) ops)) = true.
+Proof. rewrite run_dops_labels. apply join_sound. Qed.
